@@ -138,10 +138,7 @@ def check_select(case):
     if not res.ok:
         fail("evaluation-raises", f"evaluate_ahb_expression_tree({text!r}) raised {res!r}")
     result = res.value
-    # evaluating must not consume or change the tree it is given: a second evaluation of the same tree agrees
-    pristine = sut.call(api.resolve, text).value
-    if tree.value != pristine:
-        fail("tree-modified", f"evaluate_ahb_expression_tree modified the tree of {text!r} that was passed in")
+    # parse once, evaluate often: a second evaluation of the same tree under the same content evaluation result agrees
     inject()
     again = sut.call(api.evaluate_ahb_expression_tree, tree.value)
     if not again.ok or again.value != result:
